@@ -19,6 +19,16 @@ base is reached by a randomly chosen spelling out of all that Python offers from
 (``from . / .. / ... import m``, ``from ..m import C``, ``from .. import C``) from-imports with and without ``as``,
 ``import a.b.c`` [``as``], ``m.C`` and ``p.m.C`` chains through imported modules / packages, and re-exports by another
 module or an enclosing package's __init__ (names that only exist through that package's namespace).
+Scoping: in 30% of the cases of every workload the class bodies bind (attribute, ``name = name``, method, nested class)
+names spelled like the first name of their own base expressions - the base class, the alias it was imported as, the
+module / package a dotted chain starts with - and like other classes of the hierarchy: bases are evaluated in the
+scope enclosing the class statement, whatever the body binds.  These names are members like f, g, h, x: inherited
+and overridden further down, and judged the same way.
+Views of one tree: a share of the cases of every workload (90% of those with such bodies, 30% of the others; 50% / 10%
+of the numerous single-module cases) is judged
+a second time, with the same expectation, on the tree dumped with ``as_json(full=False|True)`` and loaded back with
+``Module.from_json`` / ``json.loads(object_hook=json_decoder)`` - every top-level package of the collection, placed in
+a fresh ``ModulesCollection`` (for sessions: the final state of the shared collection).
 Oracle: CPython's ``type()`` builds the very same hierarchy; ``__mro__`` and the first class
 in it defining a name are the expected order / definer.  For sessions CPython additionally imports the
 generated files and must agree with ``type()``.  M-CON contract on ``c3linear_merge``.
@@ -49,7 +59,11 @@ RULE = ("all hierarchies of N classes (N<=5 quick, N<=6 thorough), each class wi
         "visited into one shared collection in a random order (all orders occur) by 1-3 loaders with default or no "
         "extensions, accessors read and resolve_aliases() called at random places between the loads, every class "
         "judged as soon as everything it depends on is loaded and again at the end; members f,g,h,x placed at "
-        "random with overrides. distinct = digest of the rendered sources (+ operations); non-trivial = some class "
+        "random with overrides; in 30% of the cases of every workload class bodies also bind (attribute, name = name, "
+        "method, nested class) the first name of their own base expressions (class, import alias, module/package a "
+        "dotted base starts with) or the name of another class; 90% of those cases and 30% of the others (single-module workloads: 50% / 10%) are judged "
+        "again after a JSON round trip (as_json full or not -> Module.from_json / json.loads with json_decoder, all "
+        "top-level packages into a fresh ModulesCollection). distinct = digest of the rendered sources (+ operations); non-trivial = some class "
         "has >= 2 bases")
 LEVEL_TEXT = ("Every hierarchy of the stated bounded space is built by CPython's type() and by Griffe from the same text and "
               "compared class by class (MRO, rejected/cyclic hierarchies, definer of every inherited name, alias "
@@ -67,7 +81,12 @@ REQUIRED_COUNTERS = ["mro_compared", "c3_contract_evals", "inherited_lookups_com
                      "classes_reaching_a_cycle_from_outside_judged", "session_cyclic_classes_judged",
                      "tree_classes_judged", "tree_cpython_import_agrees", "bases_of_classes_declared_in_a_subpackage_init",
                      "bases_reached_by_parent_relative_import", "bases_reached_by_bare_parent_relative_name_in_init",
-                     "bases_reached_through_a_reexport"]
+                     "bases_reached_through_a_reexport",
+                     "classes_binding_root_of_own_base_judged", "reloaded_classes_judged",
+                     "reloaded_classes_with_several_ancestors_judged", "reloaded_cyclic_classes_judged",
+                     "reloaded_classes_binding_root_of_own_base_judged",
+                     "reloaded_classes_binding_root_of_own_dotted_base_judged", "reloaded_package_trees_judged",
+                     "reloaded_sessions_judged"]
 EXHAUSTIVE = {"quick": True, "thorough": True}  # quick: exhaustive for N<=5 (+ a sample of N=6); thorough: N<=6
 ASSUMPTIONS = ["CPython 3.12 type() is the reference semantics for C3 linearisation and attribute lookup",
                "exhaustive over the stated bounded space only (N classes, <=3 bases); cross-module, cycle and "
@@ -77,6 +96,21 @@ ASSUMPTIONS = ["CPython 3.12 type() is the reference semantics for C3 linearisat
                "state-independent invariants are judged (what an unloadable base should mean is not part of the "
                "statement)"]
 NAMES = ["f", "g", "h", "x"]
+
+
+def names_of(members) -> list[str]:  # noqa: ANN001
+    """Every member name of a case: f, g, h, x plus the names class bodies bind besides (names spelled like the
+    roots of base expressions / like classes of the hierarchy)."""
+    extra = {name for m in members for name in m if name not in NAMES}
+    return NAMES + sorted(extra)
+
+
+def ns_value(kind: str, i: int):  # noqa: ANN201
+    if kind == "func":
+        return lambda self: None
+    if kind == "class":
+        return type("Nested", (), {})
+    return i
 
 
 class ContractBroken(Exception):
@@ -163,8 +197,45 @@ def render_class(i: int, base_exprs: list[str], members: dict[str, str]) -> str:
     head = f"class C{i}" + (f"({', '.join(base_exprs)})" if base_exprs else "") + ":\n"
     body = ""
     for name, kind in members.items():
-        body += f"    def {name}(self): ...\n" if kind == "func" else f"    {name} = {i}\n"
+        if kind == "func":
+            body += f"    def {name}(self): ...\n"
+        elif kind == "class":
+            body += f"    class {name}:\n        y = {i}\n"
+        elif kind == "attr_ref":      # keeps a handle on what the name means in the enclosing scope
+            body += f"    {name} = {name}\n"
+        else:
+            body += f"    {name} = {i}\n"
     return head + (body or "    pass\n")
+
+
+SHADOW_KINDS = ["attr", "attr_ref", "func", "class"]
+
+
+def bind_base_roots(rng: random.Random, i: int, base_exprs: list[str], members: list, binds: list, others=()) -> None:  # noqa: ANN001
+    """Scoping: bases are evaluated in the scope *enclosing* the class statement, whatever the class body binds.
+    Adds (in place) to the body of class ``i`` members - attribute, method or nested class - spelled like the first
+    name of one of its base expressions (the base class itself, the alias it was imported as, or the module /
+    package a dotted chain starts with), sometimes also like the last name of a dotted base or like another class
+    of the hierarchy.  ``binds[i]`` records which roots of its own bases the body binds."""
+    roots = list(dict.fromkeys(e.split(".")[0] for e in base_exprs))
+    picked: dict[str, str] = {}
+    for root in roots:
+        if rng.random() < 0.6:
+            picked[root] = rng.choice(SHADOW_KINDS)
+    for e in base_exprs:
+        if "." in e and rng.random() < 0.25:
+            picked.setdefault(e.rsplit(".", 1)[1], rng.choice(["attr", "func", "class"]))
+    for name in others:
+        if rng.random() < 0.15:
+            picked.setdefault(name, rng.choice(["attr", "func", "class"]))
+    if not picked:
+        return
+    items = list(members[i].items())
+    for name, kind in picked.items():
+        items.insert(rng.randrange(len(items) + 1), (name, kind))
+    members[i] = dict(items)
+    dotted = {e.split(".")[0] for e in base_exprs if "." in e}
+    binds[i] = [[name, picked[name], name in dotted] for name in roots if name in picked]
 
 
 def cpython_reference(hier, members):  # noqa: ANN001
@@ -174,7 +245,7 @@ def cpython_reference(hier, members):  # noqa: ANN001
         if any(classes[b] is None for b in bases):
             classes.append(None)
             continue
-        ns = {name: (lambda self: None) if kind == "func" else i for name, kind in members[i].items()}
+        ns = {name: ns_value(kind, i) for name, kind in members[i].items()}
         try:
             classes.append(type(f"C{i}", tuple(classes[b] for b in bases), ns))
         except TypeError:
@@ -187,7 +258,7 @@ def cpython_reference(hier, members):  # noqa: ANN001
             definers.append(None)
             continue
         d = {}
-        for name in NAMES:
+        for name in names_of(members):
             for c in cls.__mro__[:-1]:
                 if name in vars(c):
                     d[name] = index[c]
@@ -241,7 +312,7 @@ def graph_reference(graph, members):  # noqa: ANN001, ANN201
         if any(classes[b] is None for b in graph[i]):
             classes[i] = None
             return
-        ns = {name: (lambda self: None) if kind == "func" else i for name, kind in members[i].items()}
+        ns = {name: ns_value(kind, i) for name, kind in members[i].items()}
         try:
             classes[i] = type(f"C{i}", tuple(classes[b] for b in graph[i]), ns)
         except TypeError:
@@ -265,7 +336,7 @@ def graph_reference(graph, members):  # noqa: ANN001, ANN201
             continue
         mros.append([index[c] for c in cls.__mro__[1:-1]])
         d = {}
-        for name in NAMES:
+        for name in names_of(members):
             for c in cls.__mro__[:-1]:
                 if name in vars(c):
                     d[name] = index[c]
@@ -286,7 +357,7 @@ def judge_cyclic(rec, i, cls, members, steps):  # noqa: ANN001, ANN201, C901, PL
         inherited = cls.inherited_members
         allm = cls.all_members
         items = {}
-        for name in NAMES:
+        for name in names_of(members):
             try:
                 items[name] = cls[name]
             except KeyError:
@@ -306,7 +377,7 @@ def judge_cyclic(rec, i, cls, members, steps):  # noqa: ANN001, ANN201, C901, PL
     if set(allm) != set(own) or any(allm[name] is not cls.members[name] for name in own):
         return (f"C{i}: reaches an inheritance cycle: all_members must be exactly the declared members", sorted(allm),
                 sorted(own))
-    for name in NAMES:
+    for name in names_of(members):
         if name in own and items[name] is not cls.members[name]:
             return (f"C{i}[{name!r}] is not the declared member (class reaches an inheritance cycle)", repr(items[name]),
                     repr(cls.members[name]))
@@ -380,14 +451,93 @@ def judge_one(rec, i, cls, mros, definers, members, path_of, steps):  # noqa: AN
     return None
 
 
-def judge(rec, case, hier, members, get_class, path_of, steps):  # noqa: ANN001
-    """Compare griffe's view of every class with CPython's. Returns a failure tuple or None."""
+RELOADS = [{"full": False, "via": "from_json"}, {"full": True, "via": "from_json"},
+           {"full": False, "via": "json_loads"}, {"full": True, "via": "json_loads"}]
+
+
+def pick_reload(rng: random.Random, binds, share=(0.9, 0.3)) -> dict | None:  # noqa: ANN001
+    """Views of one tree: which JSON round trip the hierarchy is judged again after (None: the fresh tree only)."""
+    if rng.random() < share[0 if any(binds) else 1]:
+        return dict(rng.choice(RELOADS))
+    return None
+
+
+def reload_collection(collection, reload: dict):  # noqa: ANN001, ANN201
+    """Every top-level module of the collection dumped with as_json() and loaded back (Module.from_json or
+    json.loads with griffe's decoder hook) into a fresh ModulesCollection."""
+    import json
+
+    import griffe
+
+    new = griffe.ModulesCollection()
+    for name, mod in list(collection.members.items()):
+        dumped = mod.as_json(full=bool(reload.get("full")))
+        if reload.get("via") == "json_loads":
+            again = json.loads(dumped, object_hook=griffe.json_decoder)
+        else:
+            again = griffe.Module.from_json(dumped)
+        new.set_member(name, again)
+        again._modules_collection = new
+    return new
+
+
+def note_binds(rec, binds_i, prefix: str) -> None:  # noqa: ANN001
+    """Evidence: a judged class whose body binds the first name of one of its own base expressions."""
+    if not binds_i:
+        return
+    rec.count(prefix + "classes_binding_root_of_own_base_judged")
+    if any(dotted for _n, _k, dotted in binds_i):
+        rec.count(prefix + "classes_binding_root_of_own_dotted_base_judged")
+    for _name, kind, dotted in binds_i:
+        rec.add_to_set(prefix + "body_binds_base_root_as", kind + (" / module the dotted base starts with" if dotted else ""))
+
+
+def judge_reloaded(rec, reload, collection, n, mros, definers, members, path_of, steps, binds):  # noqa: ANN001, ANN201
+    """The same hierarchy, the same CPython oracle, on the tree that went through a JSON round trip."""
+    if not reload:
+        return None
+    new = reload_collection(collection, reload)
+    view = f" [tree reloaded from as_json(full={bool(reload.get('full'))}) through {reload.get('via', 'from_json')}]"
+    for i in range(n):
+        res = judge_one(rec, i, _walk_to(new, path_of(i)), mros, definers, members, path_of, steps)
+        if res:
+            return (res[0] + view, res[1], res[2])
+        rec.count("reloaded_classes_judged")
+        if mros[i] == CYCLE:
+            rec.count("reloaded_cyclic_classes_judged")
+        elif mros[i] is not None and len(mros[i]) >= 2:
+            rec.count("reloaded_classes_with_several_ancestors_judged")
+        note_binds(rec, binds[i] if binds else None, "reloaded_")
+    rec.count("reloaded_trees_judged")
+    rec.add_to_set("reloaded_through", f"as_json(full={bool(reload.get('full'))}) -> {reload.get('via', 'from_json')}")
+    return None
+
+
+def judge(rec, case, hier, members, collection, path_of, steps, binds=None, reload=None):  # noqa: ANN001
+    """Compare griffe's view of every class with CPython's, on the fresh tree and (``reload``) on the tree dumped to
+    JSON and loaded back. Returns a failure tuple or None."""
     mros, definers = graph_reference(hier, members)
     for i in range(len(hier)):
-        res = judge_one(rec, i, get_class(i), mros, definers, members, path_of, steps)
+        res = judge_one(rec, i, _walk_to(collection, path_of(i)), mros, definers, members, path_of, steps)
         if res:
             return res
-    return None
+        note_binds(rec, binds[i] if binds else None, "")
+    return judge_reloaded(rec, reload, collection, len(hier), mros, definers, members, path_of, steps, binds)
+
+
+SHADOW_CASES = 0.3      # share of the cases whose class bodies bind names spelled like the roots of their bases
+
+
+def bind_all(rng: random.Random, hier, members, exprs_of):  # noqa: ANN001, ANN201
+    """-> (members with the extra names, binds per class); ``exprs_of(i)`` = the base expressions of class i."""
+    n = len(hier)
+    members = [dict(m) for m in members]
+    binds: list[list] = [[] for _ in range(n)]
+    if rng.random() < SHADOW_CASES:
+        for i in range(n):
+            if hier[i]:
+                bind_base_roots(rng, i, exprs_of(i), members, binds, [f"C{j}" for j in range(n) if j not in hier[i]])
+    return members, binds
 
 
 def graph_choices(n: int) -> list[tuple[int, ...]]:
@@ -481,14 +631,18 @@ def _dist(graph, src: int, dst: int) -> int:  # noqa: ANN001
     return dist
 
 
-def run_single(rec, hier, members, steps, order=None):  # noqa: ANN001
+def run_single(rec, hier, members, steps, order=None, rng=None):  # noqa: ANN001
+    binds, reload = None, None
+    if rng is not None:
+        members, binds = bind_all(rng, hier, members, lambda i: [f"C{b}" for b in hier[i]])
+        reload = pick_reload(rng, binds, (0.5, 0.1))     # the single-module workloads are by far the most numerous
     src = "".join(render_class(i, [f"C{b}" for b in hier[i]], members[i]) for i in order or range(len(hier)))
-    case = {"kind": "single-module", "source": src}
+    case = {"kind": "single-module", "source": src, "reload": reload}
     nontrivial = any(len(b) >= 2 for b in hier)
     try:
         with case_watchdog(60):
             mod = visit_source(src, "m")
-            res = judge(rec, case, hier, members, lambda i: mod.members[f"C{i}"], lambda j: f"m.C{j}", steps)
+            res = judge(rec, case, hier, members, mod.modules_collection, lambda j: f"m.C{j}", steps, binds, reload)
     except (Exception, mon.StepBudgetExceeded) as exc:  # noqa: BLE001
         rec.fail_exc(case, "exception while computing MRO / inherited members", exc, nontrivial=nontrivial)
         return
@@ -512,6 +666,9 @@ def run_package(rec, rng, steps, hier, members, order=None):  # noqa: ANN001, C9
     nmods = rng.randint(2, 3)
     home = [rng.randrange(nmods) for _ in range(n)]
     modnames = ["a", "b", "c"][:nmods]
+    members = [dict(m) for m in members]
+    binds: list[list] = [[] for _ in range(n)]
+    shadow = rng.random() < SHADOW_CASES
     bodies = {m: [] for m in modnames}
     imports = {m: [] for m in modnames}
     reexports: list[str] = []
@@ -547,17 +704,20 @@ def run_package(rec, rng, steps, hier, members, order=None):  # noqa: ANN001, C9
             else:
                 imports[m].append(f"from .{bm} import C{b} as R{b}")
                 exprs.append(f"R{b}")
+        if shadow and exprs:
+            bind_base_roots(rng, i, exprs, members, binds, [f"C{j}" for j in range(n) if j not in bases])
         bodies[m].append(render_class(i, exprs, members[i]))
     files = {"pk/__init__.py": "".join(line + "\n" for line in dict.fromkeys(reexports))}
     for m in modnames:
         files[f"pk/{m}.py"] = "\n".join(dict.fromkeys(imports[m])) + "\n" + "".join(bodies[m])
-    case = {"kind": "multi-module", "files": files}
+    reload = pick_reload(rng, binds)
+    case = {"kind": "multi-module", "files": files, "reload": reload}
     nontrivial = any(len(b) >= 2 for b in hier)
     try:
         with case_watchdog(60):
-            pkg, _ = load_files(files, "pk")
-            res = judge(rec, case, hier, members, lambda i: pkg[modnames[home[i]]].members[f"C{i}"],
-                        lambda j: f"pk.{modnames[home[j]]}.C{j}", steps)
+            _pkg, loader = load_files(files, "pk")
+            res = judge(rec, case, hier, members, loader.modules_collection,
+                        lambda j: f"pk.{modnames[home[j]]}.C{j}", steps, binds, reload)
     except (Exception, mon.StepBudgetExceeded) as exc:  # noqa: BLE001
         rec.fail_exc(case, "exception while computing MRO / inherited members (multi-module)", exc, nontrivial=nontrivial)
         return
@@ -578,7 +738,7 @@ def run_cyclic_sample(rec, rng, steps, maxn):  # noqa: ANN001
     order = text_order(rng, graph)
     rec.count("graphs_with_backward_bases")
     if rng.random() < 0.4:
-        run_single(rec, graph, members, steps, order)
+        run_single(rec, graph, members, steps, order, rng=rng)
     else:
         run_package(rec, rng, steps, graph, members, order)
 
@@ -667,9 +827,13 @@ def render_units(rng: random.Random, hier, members, units, pos, home, inits, ord
     """Write the class statements into their home modules, each base reached by a randomly chosen spelling
     (directly, or through a re-export by a unit that CPython imports in between).
 
-    -> (text per unit, tops each class depends on, aliases of classes, the spelling used for every base)
+    -> (text per unit, tops each class depends on, aliases of classes, the spelling used for every base,
+        per class the roots of its own base expressions that its body binds); ``members`` is extended in place with
+        the names the class bodies bind besides f, g, h, x
     """
     n = len(hier)
+    binds: list[list] = [[] for _ in range(n)]
+    shadow = rng.random() < SHADOW_CASES
     imports: dict[str, list[str]] = {u: [] for u in units}
     bodies: dict[str, list[str]] = {u: [] for u in units}
     bound: dict[str, dict[str, tuple]] = {u: {} for u in units}    # unit -> name -> what the name stands for
@@ -722,13 +886,15 @@ def render_units(rng: random.Random, hier, members, units, pos, home, inits, ord
             direct[i] |= through
             exprs.append(expr)
             reach.append({"cls": i, "base": b, "kinds": kinds, "in_init": hi in inits, "depth": hi.count(".")})
+        if shadow and exprs:
+            bind_base_roots(rng, i, exprs, members, binds, [f"C{j}" for j in range(n) if j not in hier[i]])
         bodies[hi].append(render_class(i, exprs, members[i]))
     # everything a class depends on: its own statement's route and those of all the classes it reaches
     needs = [sorted(set().union(direct[i], *(direct[j] for j in _reachable(hier, i)))) for i in range(n)]
     for a in aliases:
         a["needs"] = sorted(a["needs"] | set(needs[a["cls"]]))
     texts = {u: "".join(line + "\n" for line in dict.fromkeys(imports[u])) + "".join(bodies[u]) for u in units}
-    return texts, needs, aliases, reach
+    return texts, needs, aliases, reach, binds
 
 
 def note_reach(rec, reach) -> None:  # noqa: ANN001
@@ -771,10 +937,10 @@ def gen_tree(rng: random.Random, maxn: int) -> dict:
         home = [units[p] for p in pos]
         if any(home[b] != home[i] for i, bases in enumerate(hier) for b in bases):
             break
-    texts, _needs, _aliases, reach = render_units(rng, hier, members, units, pos, home, inits, range(n))
+    texts, _needs, _aliases, reach, binds = render_units(rng, hier, members, units, pos, home, inits, range(n))
     return {"kind": "package-tree", "files": {unit_file(u, inits): texts[u] for u in units}, "roots": ["."],
             "units": units, "home": home, "hier": [list(b) for b in hier], "members": members, "reach": reach,
-            "resolve_aliases": rng.random() < 0.3}
+            "resolve_aliases": rng.random() < 0.3, "binds": binds, "reload": pick_reload(rng, binds)}
 
 
 def exec_tree(rec, case: dict, steps):  # noqa: ANN001, ANN201
@@ -796,11 +962,19 @@ def exec_tree(rec, case: dict, steps):  # noqa: ANN001, ANN201
     def path_of(j: int) -> str:
         return f"{home[j]}.C{j}"
 
+    binds = case.get("binds")
     for i in range(len(hier)):
         res = judge_one(rec, i, _walk_to(loader.modules_collection, path_of(i)), mros, definers, members, path_of, steps)
         if res:
             return res
         rec.count("tree_classes_judged")
+        note_binds(rec, binds[i] if binds else None, "")
+    res = judge_reloaded(rec, case.get("reload"), loader.modules_collection, len(hier), mros, definers, members, path_of,
+                         steps, binds)
+    if res:
+        return res
+    if case.get("reload"):
+        rec.count("reloaded_package_trees_judged")
     if imported is not None:
         note_reach(rec, case.get("reach", ()))
     return None
@@ -856,8 +1030,8 @@ def gen_session(rng: random.Random, maxn: int) -> dict:  # noqa: C901, PLR0912, 
     if rng.random() < 0.3:                        # statically cyclic hierarchies, or merely bases defined "later"
         hier = add_back_edges(rng, hier, rng.randint(1, 2))
     backward = any(b >= i for i, bases in enumerate(hier) for b in bases)
-    texts, needs, aliases, reach = render_units(rng, hier, members, units, pos, home, inits,
-                                                text_order(rng, hier) if backward else range(n))
+    texts, needs, aliases, reach, binds = render_units(rng, hier, members, units, pos, home, inits,
+                                                       text_order(rng, hier) if backward else range(n))
     split_roots = mode == "load" and rng.random() < 0.4
     roots = [f"s{k}" for k in range(len(tops))] if split_roots else ["."]
     files = {("" if not split_roots else f"s{tops.index(_top(u))}/") + unit_file(u, inits): texts[u] for u in units}
@@ -886,7 +1060,7 @@ def gen_session(rng: random.Random, maxn: int) -> dict:  # noqa: C901, PLR0912, 
     return {"kind": "session", "mode": mode, "files": files, "roots": roots, "units": units, "home": home,
             "hier": [list(b) for b in hier], "members": members, "needs": needs, "nloaders": nloaders, "reach": reach,
             "extensions": rng.choice(["default", "default", "none"]) if mode == "load" else "none",
-            "ops": ops, "final_order": final_order}
+            "ops": ops, "final_order": final_order, "binds": binds, "reload": pick_reload(rng, binds)}
 
 
 def import_reference(case: dict):  # noqa: ANN201
@@ -914,7 +1088,7 @@ def import_reference(case: dict):  # noqa: ANN201
             definers = []
             for cls in classes:
                 d = {}
-                for name in NAMES:
+                for name in names_of(case["members"]):
                     for c in cls.__mro__[:-1]:
                         if name in vars(c):
                             d[name] = index[c]
@@ -942,7 +1116,7 @@ def _walk_to(collection, path: str):  # noqa: ANN001, ANN202
     return obj
 
 
-def touch(cls, what: str, alias, steps):  # noqa: ANN001, ANN201, C901, PLR0911, PLR0912
+def touch(cls, what: str, alias, steps, names=NAMES):  # noqa: ANN001, ANN201, C901, PLR0911, PLR0912
     """One accessor read in the middle of a session (possibly through an alias of the class).
 
     Only what holds in *any* loading state is judged here: no exception other than mro()'s ValueError,
@@ -991,7 +1165,7 @@ def touch(cls, what: str, alias, steps):  # noqa: ANN001, ANN201, C901, PLR0911,
                 return (f"{alias.path}: resolved_bases through the alias differ", [b.path for b in rb],
                         [b.path for b in cls.resolved_bases])
         else:
-            for name in NAMES:
+            for name in names:
                 try:
                     got = subject[name]
                 except KeyError:
@@ -1077,7 +1251,7 @@ def exec_session(rec, case: dict, steps):  # noqa: ANN001, ANN201, C901, PLR0912
                 i = op["cls"]
                 cls = _walk_to(mc, path_of(i))
                 alias = _walk_to(mc, op["alias"]) if op["alias"] else None
-                res = touch(cls, op["what"], alias, steps)
+                res = touch(cls, op["what"], alias, steps, names_of(members))
                 if res:
                     return res
                 complete = needs[i] <= loaded
@@ -1104,6 +1278,14 @@ def exec_session(rec, case: dict, steps):  # noqa: ANN001, ANN201, C901, PLR0912
                 rec.count("session_final_classes_asked_before_bases_loaded")
             if mros[i] == CYCLE:
                 rec.count("session_cyclic_classes_judged")
+            note_binds(rec, case["binds"][i] if case.get("binds") else None, "")
+        # a further view of the final state of the session: every top-level package of the shared collection dumped
+        # to JSON and loaded back into a fresh collection
+        res = judge_reloaded(rec, case.get("reload"), mc, n, mros, definers, members, path_of, steps, case.get("binds"))
+        if res:
+            return (res[0] + " after the whole session", res[1], res[2])
+        if case.get("reload"):
+            rec.count("reloaded_sessions_judged")
     note_cycles(rec, hier, analysis)
     note_reach(rec, case.get("reach", ()))
     return None
@@ -1153,45 +1335,55 @@ CYCLES = [
 
 
 def run_cycles(rec, steps):  # noqa: ANN001, C901
-    for entry in CYCLES:
+    for number, entry in enumerate(CYCLES):
         files = entry["files"]
         case = {"kind": "textual-cycle", **entry}
+        reload = entry.get("reload", RELOADS[number % len(RELOADS)])
         top = "pk" if any(k.startswith("pk/") for k in files) else "m"
+
+        def check(pkg, view: str):  # noqa: ANN001, ANN202
+            bad = None
+            for cls in [o for o in _walk(pkg) if o.is_class]:
+                steps.begin(100_000)
+                try:
+                    try:
+                        order = cls.mro()
+                        raised = False
+                    except ValueError:
+                        raised = True
+                    inh = cls.inherited_members
+                    allm = cls.all_members
+                finally:
+                    n, depth = steps.end()
+                    rec.maximum("max_steps_per_class", n)
+                if "cyclic" in entry:
+                    cyclic = cls.path in entry["cyclic"]
+                    acyclic = not cyclic
+                else:   # replay files written before the expectation was part of the input
+                    cyclic = _in_textual_cycle(cls)
+                    acyclic = not cyclic and not any(_in_textual_cycle(b) for b in _bases_closure(cls))
+                if cyclic:
+                    rec.count("cycles_reported" if raised else "cycles_missed")
+                    if not raised:
+                        bad = (f"{cls.path}: cyclic hierarchy but mro() returned{view}", [c.path for c in order], "ValueError")
+                    elif inh:
+                        bad = (f"{cls.path}: cyclic hierarchy but inherited members{view}", sorted(inh), {})
+                    elif set(allm) != set(cls.members):
+                        bad = (f"{cls.path}: cyclic hierarchy: all_members differ from members{view}", sorted(allm),
+                               sorted(cls.members))
+                elif raised and acyclic:
+                    bad = (f"{cls.path}: ValueError but no cycle{view}", "ValueError", "an MRO")
+            return bad
+
         try:
             with case_watchdog(60):
-                pkg, _ = load_files(files, top)
-                classes = [o for o in _walk(pkg) if o.is_class]
-                bad = None
-                for cls in classes:
-                    steps.begin(100_000)
-                    try:
-                        try:
-                            order = cls.mro()
-                            raised = False
-                        except ValueError:
-                            raised = True
-                        inh = cls.inherited_members
-                        allm = cls.all_members
-                    finally:
-                        n, depth = steps.end()
-                        rec.maximum("max_steps_per_class", n)
-                    if "cyclic" in entry:
-                        cyclic = cls.path in entry["cyclic"]
-                        acyclic = not cyclic
-                    else:   # replay files written before the expectation was part of the input
-                        cyclic = _in_textual_cycle(cls)
-                        acyclic = not cyclic and not any(_in_textual_cycle(b) for b in _bases_closure(cls))
-                    if cyclic:
-                        rec.count("cycles_reported" if raised else "cycles_missed")
-                        if not raised:
-                            bad = (f"{cls.path}: cyclic hierarchy but mro() returned", [c.path for c in order], "ValueError")
-                        elif inh:
-                            bad = (f"{cls.path}: cyclic hierarchy but inherited members", sorted(inh), {})
-                        elif set(allm) != set(cls.members):
-                            bad = (f"{cls.path}: cyclic hierarchy: all_members differ from members", sorted(allm),
-                                   sorted(cls.members))
-                    elif raised and acyclic:
-                        bad = (f"{cls.path}: ValueError but no cycle", "ValueError", "an MRO")
+                pkg, loader = load_files(files, top)
+                bad = check(pkg, "")
+                if not bad and reload:
+                    again = reload_collection(loader.modules_collection, reload)
+                    bad = check(again.members[top], f" [tree reloaded from as_json(full={bool(reload.get('full'))}) "
+                                                    f"through {reload.get('via', 'from_json')}]")
+                    rec.count("reloaded_textual_cycles_judged")
         except (Exception, mon.StepBudgetExceeded) as exc:  # noqa: BLE001
             rec.fail_exc(case, "exception / step budget on cyclic hierarchy", exc)
             continue
@@ -1237,7 +1429,7 @@ def run_shard(spec: dict, rec) -> None:  # noqa: ANN001
                 if idx % spec["parts"] != spec["part"]:
                     continue
                 mrng = random.Random(idx * 7919 + spec["seed"] // 100003)
-                run_single(rec, hier, members_for(mrng, n), steps)
+                run_single(rec, hier, members_for(mrng, n), steps, rng=mrng)
     elif spec["kind"] == "multi":
         for _ in range(spec["count"]):
             run_multi(rec, rng, steps, spec["maxn"])
@@ -1251,7 +1443,7 @@ def run_shard(spec: dict, rec) -> None:  # noqa: ANN001
                 if idx % spec["parts"] != spec["part"]:
                     continue
                 mrng = random.Random(idx * 7919 + spec["seed"] // 100003)
-                run_single(rec, graph, members_for(mrng, n), steps, text_order(mrng, graph))
+                run_single(rec, graph, members_for(mrng, n), steps, text_order(mrng, graph), rng=mrng)
                 rec.count("base_graphs_enumerated")
     elif spec["kind"] == "cyclic_sampled":
         for _ in range(spec["count"]):
@@ -1265,7 +1457,7 @@ def run_shard(spec: dict, rec) -> None:  # noqa: ANN001
     elif spec["kind"] == "sampled6":
         for _ in range(spec["count"]):
             hier = tuple(rng.choice(base_choices(i)) for i in range(6))
-            run_single(rec, hier, members_for(rng, 6), steps)
+            run_single(rec, hier, members_for(rng, 6), steps, rng=rng)
             rec.count("sampled_six_class_hierarchies")
 
 
@@ -1274,7 +1466,7 @@ def run_replay(inp: dict, rec) -> None:  # noqa: ANN001
     install_contract(rec)
     steps = mon.Steps()
     if inp.get("kind") == "textual-cycle":
-        CYCLES[:] = [{k: v for k, v in inp.items() if k in ("files", "cyclic")}]
+        CYCLES[:] = [{k: v for k, v in inp.items() if k in ("files", "cyclic", "reload")}]
         run_cycles(rec, steps)
         return
     if inp.get("kind") == "session":
@@ -1297,6 +1489,8 @@ def run_replay(inp: dict, rec) -> None:  # noqa: ANN001
                 for st in node.body:
                     if isinstance(st, ast.FunctionDef):
                         mem[st.name] = "func"
+                    elif isinstance(st, ast.ClassDef):
+                        mem[st.name] = "class"
                     elif isinstance(st, ast.Assign):
                         mem[st.targets[0].id] = "attr"
                 bases = [ast.unparse(b) for b in node.bases]
@@ -1306,16 +1500,13 @@ def run_replay(inp: dict, rec) -> None:  # noqa: ANN001
     hier = tuple(tuple(idx["C" + "".join(ch for ch in b.split(".")[-1] if ch.isdigit())] for b in bases)
                  for _n, _m, bases, _mm in order)
     members = [mm for *_x, mm in order]
+    binds = [[[b.split(".")[0], mm[b.split(".")[0]], "." in b] for b in dict.fromkeys(bases) if b.split(".")[0] in mm]
+             for _n, _m, bases, mm in order]
     case = dict(inp)
-
-    def get(i):  # noqa: ANN001
-        name, modpath, *_ = order[i]
-        obj = pkg if modpath == top else pkg[modpath.split(".", 1)[1]]
-        return obj.members[name]
-
     try:
-        pkg, _ = load_files(files, top)
-        res = judge(rec, case, hier, members, get, lambda j: f"{order[j][1]}.{order[j][0]}", steps)
+        _pkg, loader = load_files(files, top)
+        res = judge(rec, case, hier, members, loader.modules_collection, lambda j: f"{order[j][1]}.{order[j][0]}", steps,
+                    binds, inp.get("reload"))
     except (Exception, mon.StepBudgetExceeded) as exc:  # noqa: BLE001
         rec.fail_exc(case, "exception while computing MRO / inherited members", exc)
         return
